@@ -27,6 +27,12 @@ NUM_CLASSES = [
     ["25", "2.5e1", "2.5E1", "25.0", "250e-1", "025", ".25e2"],
     ["1e4", "10000", "1E4", "10e3"],
 ]
+# DIFFERENT values that a sloppy comparison would equate (truncation to int, ignoring the exponent or its sign, ignoring the
+# sign, comparing mantissas only, rounding): must compare as different
+NUM_NEAR = [("1.5", "1"), ("2.5", "2"), ("0.5", "0"), (".5", "0"), ("2.5e1", "2e1"), ("25e-1", "2"), ("1e3", "1e2"), ("1e3", "1"),
+            ("10", "1e0"), ("1e1", "1"), ("7", "7.5"), ("-0.5", "0"), ("-1", "1"), ("+1", "-1"), ("1e-1", "1"), ("1e-1", "0"),
+            ("5e-1", "5"), ("5e-1", "5e1"), ("1e-3", "1e3"), ("0.1", "0.11"), ("1.0e3", "1.0"), ("1000", "1000.5"), ("1E3", "1E-3"),
+            ("3", "3e1"), ("30", "3e0"), ("0.3", "3e1"), ("99", "1e2"), ("0e0", "1e0"), ("-4e1", "4e1"), ("-40", "-4")]
 # spellings that are NOT numbers for either side: compared as text (equal only when identical after trimming)
 NOT_NUMS = ["1e", "e3", "1e3x", "1 e3", "1e 3", "7,0", "x7", "1e-", "1e+", ".", "-", "+", "1.2.3", "1ee3", ".e3"]
 PADS = ["", "", "", " ", "\n", "  ", " \n", "\n "]
@@ -495,7 +501,7 @@ def eq_family():
 def num_family():
     """NUMBERS BY VALUE, deterministically: for every pair (a, b) of spellings of the same value in NUM_CLASSES (plain, signed,
     zero-padded, with trailing .0 / bare point, exponent notation with and without fraction, sign of the exponent, upper-case
-    E) and for pairs of different values / of non-numbers, the comparison `a = b` is put where the template language compares:
+    E) and for pairs of different values (arbitrary and NEAR ones: 1.5 / 1, 1e3 / 1e2, 5e-1 / 5e1, -1 / 1) / of non-numbers, the comparison `a = b` is put where the template language compares:
     #ifeq directly (with blanks around the operands), #ifeq inside a template body with the operands arriving as positional
     arguments, as named arguments, through a parameter default and out of another template, and #switch (literal keys and a
     computed key).  Reference: both numeric -> equal iff equal VALUES; otherwise equal iff identical text."""
@@ -513,6 +519,9 @@ def num_family():
         other = NUM_CLASSES[(ci + 1) % len(NUM_CLASSES)]
         for i, sp in enumerate(cls):
             pairs.append((sp, other[i % len(other)]))          # different values
+    for a, b in NUM_NEAR:
+        pairs.append((a, b))
+        pairs.append((b, a))
     for i, bad in enumerate(NOT_NUMS):
         pairs.append((bad, bad))
         pairs.append((bad, NUM_CLASSES[i % len(NUM_CLASSES)][0]))
